@@ -1323,6 +1323,9 @@ pub fn l4_check(s: &mut Sink, eng: Eng, c: &L4) {
         5 => "far-div32-reg",
         _ => "far-local-call",
     };
+    // programs at the 1,000,000-instruction limit are a class of their own
+    let class_s = if c.n >= 1_000_000 { format!("{class}@1M-insns") } else { class.to_string() };
+    let class = class_s.as_str();
     let pc = ProgCase { kind: VmKind::NoData, prog: &prog, inputs: &inputs, helpers: false, class, max_steps: 3 * c.n as u64 + 1000, has_local_call: c.variant == 4 };
     let st = check_prog(s, eng, &pc, &rp);
     if st.rejected {
